@@ -118,39 +118,43 @@ Theorem C11_alt_prefix_order_refuted : simp_text t_prefix = "foo?" /\ differ t_p
 Proof. exact alt_prefix_order_refuted. Qed.
 Print Assumptions C11_alt_prefix_order_refuted.
 
-Theorem C11_capture_under_zero_repeat_refuted : simp_text t_zero_cap = "b" /\ option_map (fun x => snd (fst x)) (den_top t_zero_cap) = Some 1 /\ option_map (fun x => snd (fst x)) (den_top (simp_ast t_zero_cap)) = Some 0.
-Proof. exact capture_under_zero_repeat_refuted. Qed.
-Print Assumptions C11_capture_under_zero_repeat_refuted.
+Theorem C11_capture_under_zero_repeat_prefix_refuted : simp_text_prefix t_zero_cap = "b" /\ option_map (fun x => snd (fst x)) (den_top t_zero_cap) = Some 1 /\ option_map (fun x => snd (fst x)) (den_top (simp_ast_prefix t_zero_cap)) = Some 0.
+Proof. exact capture_under_zero_repeat_prefix_refuted. Qed.
+Print Assumptions C11_capture_under_zero_repeat_prefix_refuted.
 
-Theorem C11_capture_in_folded_group_refuted : simp_text t_fold_cap = "(?:(a)){2}" /\ option_map (fun x => snd (fst x)) (den_top t_fold_cap) = Some 2 /\ option_map (fun x => snd (fst x)) (den_top (simp_ast t_fold_cap)) = Some 1.
-Proof. exact capture_in_folded_group_refuted. Qed.
-Print Assumptions C11_capture_in_folded_group_refuted.
+Theorem C11_capture_in_folded_group_prefix_refuted : simp_text_prefix t_fold_cap = "(?:(a)){2}" /\ option_map (fun x => snd (fst x)) (den_top t_fold_cap) = Some 2 /\ option_map (fun x => snd (fst x)) (den_top (simp_ast_prefix t_fold_cap)) = Some 1.
+Proof. exact capture_in_folded_group_prefix_refuted. Qed.
+Print Assumptions C11_capture_in_folded_group_prefix_refuted.
 
-Theorem C11_capture_in_merged_group_refuted : simp_text t_merge_cap = "(?:(a))+" /\ option_map (fun x => snd (fst x)) (den_top t_merge_cap) = Some 2 /\ option_map (fun x => snd (fst x)) (den_top (simp_ast t_merge_cap)) = Some 1.
-Proof. exact capture_in_merged_group_refuted. Qed.
-Print Assumptions C11_capture_in_merged_group_refuted.
+Theorem C11_capture_in_merged_group_prefix_refuted : simp_text_prefix t_merge_cap = "(?:(a))+" /\ option_map (fun x => snd (fst x)) (den_top t_merge_cap) = Some 2 /\ option_map (fun x => snd (fst x)) (den_top (simp_ast_prefix t_merge_cap)) = Some 1.
+Proof. exact capture_in_merged_group_prefix_refuted. Qed.
+Print Assumptions C11_capture_in_merged_group_prefix_refuted.
 
 Theorem C11_merge_of_nullable_group_refuted : simp_text t_merge_nullable = "(?:s*?b*)+" /\ differ t_merge_nullable (simp_ast t_merge_nullable) "bs".
 Proof. exact merge_of_nullable_group_refuted. Qed.
 Print Assumptions C11_merge_of_nullable_group_refuted.
 
-Theorem C11_flag_group_loses_question_mark_refuted : simp_text t_flag_group = "(i:a)b" /\ differ t_flag_group (simp_ast t_flag_group) "ab".
-Proof. exact flag_group_loses_question_mark_refuted. Qed.
-Print Assumptions C11_flag_group_loses_question_mark_refuted.
+Theorem C11_flag_group_loses_question_mark_prefix_refuted : simp_text_prefix t_flag_group = "(i:a)b" /\ differ t_flag_group (simp_ast_prefix t_flag_group) "ab".
+Proof. exact flag_group_loses_question_mark_prefix_refuted. Qed.
+Print Assumptions C11_flag_group_loses_question_mark_prefix_refuted.
 
-Theorem C11_nongreedy_over_dropped_repeat_refuted : simp_text t_ng = "a?b" /\ print t_ng_after = "a?b" /\ differ t_ng t_ng_after "b".
-Proof. exact nongreedy_over_dropped_repeat_refuted. Qed.
-Print Assumptions C11_nongreedy_over_dropped_repeat_refuted.
+Theorem C11_nongreedy_over_dropped_repeat_prefix_refuted : simp_text_prefix t_ng = "a?b" /\ print t_ng_after = "a?b" /\ differ t_ng t_ng_after "b".
+Proof. exact nongreedy_over_dropped_repeat_prefix_refuted. Qed.
+Print Assumptions C11_nongreedy_over_dropped_repeat_prefix_refuted.
 
-Theorem C11_alt_to_class_dash_refuted : simp_text t_dash = "[a-c]" /\ print t_dash_after = "[a-c]" /\ differ t_dash t_dash_after "-".
-Proof. exact alt_to_class_dash_refuted. Qed.
-Print Assumptions C11_alt_to_class_dash_refuted.
+Theorem C11_alt_to_class_dash_prefix_refuted : simp_text_prefix t_dash = "[a-c]" /\ print t_dash_after = "[a-c]" /\ differ t_dash t_dash_after "-".
+Proof. exact alt_to_class_dash_prefix_refuted. Qed.
+Print Assumptions C11_alt_to_class_dash_prefix_refuted.
 
-Theorem C11_alt_to_class_bracket_refuted : simp_text t_brk = "[a]]" /\ print t_brk_after = "[a]]" /\ differ t_brk t_brk_after "a".
-Proof. exact alt_to_class_bracket_refuted. Qed.
-Print Assumptions C11_alt_to_class_bracket_refuted.
+Theorem C11_alt_to_class_bracket_prefix_refuted : simp_text_prefix t_brk = "[a]]" /\ print t_brk_after = "[a]]" /\ differ t_brk t_brk_after "a".
+Proof. exact alt_to_class_bracket_prefix_refuted. Qed.
+Print Assumptions C11_alt_to_class_bracket_prefix_refuted.
 
-Theorem C11_unwrap_creates_repeat_refuted : simp_text t_unwrap = "a{1}" /\ print t_unwrap_after = "a{1}" /\ differ t_unwrap t_unwrap_after "a".
+Theorem C11_unwrap_class_creates_repeat_prefix_refuted : simp_text_prefix t_unwrap = "a{1}" /\ print t_unwrap_after = "a{1}" /\ differ t_unwrap t_unwrap_after "a".
+Proof. exact unwrap_class_creates_repeat_prefix_refuted. Qed.
+Print Assumptions C11_unwrap_class_creates_repeat_prefix_refuted.
+
+Theorem C11_unwrap_creates_repeat_refuted : simp_text t_unwrap_g = "a{2}" /\ print t_unwrap_g_after = "a{2}" /\ differ t_unwrap_g t_unwrap_g_after "aa".
 Proof. exact unwrap_creates_repeat_refuted. Qed.
 Print Assumptions C11_unwrap_creates_repeat_refuted.
 
@@ -162,7 +166,11 @@ Theorem C11_escape_removal_creates_posix_class_refuted : simp_text t_esc_posix =
 Proof. exact escape_removal_creates_posix_class_refuted. Qed.
 Print Assumptions C11_escape_removal_creates_posix_class_refuted.
 
-Theorem C11_range_enumeration_creates_range_refuted : simp_text t_rng = "[+,-x]" /\ print t_rng_after = "[+,-x]" /\ differ t_rng t_rng_after "[".
+Theorem C11_range_enumeration_dash_bound_prefix_refuted : simp_text_prefix t_rng = "[+,-x]" /\ print t_rng_after = "[+,-x]" /\ differ t_rng t_rng_after "[".
+Proof. exact range_enumeration_dash_bound_prefix_refuted. Qed.
+Print Assumptions C11_range_enumeration_dash_bound_prefix_refuted.
+
+Theorem C11_range_enumeration_creates_range_refuted : simp_text t_rng2 = "[ab-x]" /\ print t_rng2_after = "[ab-x]" /\ differ t_rng2 t_rng2_after "c".
 Proof. exact range_enumeration_creates_range_refuted. Qed.
 Print Assumptions C11_range_enumeration_creates_range_refuted.
 
@@ -170,9 +178,9 @@ Theorem C11_unwrap_joins_octal_escape_refuted : simp_text t_oct = "\01" /\ print
 Proof. exact unwrap_joins_octal_escape_refuted. Qed.
 Print Assumptions C11_unwrap_joins_octal_escape_refuted.
 
-Theorem C11_empty_alt_branch_factored_refuted : simp_text t_empty_branch = "(|?)".
-Proof. exact empty_alt_branch_factored_refuted. Qed.
-Print Assumptions C11_empty_alt_branch_factored_refuted.
+Theorem C11_empty_alt_branch_factored_prefix_refuted : simp_text_prefix t_empty_branch = "(|?)".
+Proof. exact empty_alt_branch_factored_prefix_refuted. Qed.
+Print Assumptions C11_empty_alt_branch_factored_prefix_refuted.
 
 (* the hypothesis of C11_simplify_sound_partial is satisfiable: the example of the checker's documentation *)
 Example C11_certified_satisfiable : certified doc_example = true /\ simp_text doc_example = "(?:[abc]) {3}[a-z]+".
